@@ -69,6 +69,14 @@ def direct(ctx, out):
         ress = [1, 2, 3, 4, 5, 7, 96, 100, 192, 480, 960, 997] + [rng.randint(1, 10**6) for _ in range(4)] + [2**50 - 1]
         pair_frac = 0.125
     reqs, meta = [], []
+    try:
+        # the function is private: if it no longer answers a plain, certainly-valid call in this form, this family has nothing to
+        # say (the whole-chart family below asks the same questions through the public parser)
+        NoteEvent._compute_hopo_state(192, 1200, note_of[LANESETS[1]], False, False, prev_event(note_of[LANESETS[2]]))
+    except (TypeError, AttributeError) as ex:
+        out.notes.append(f"direct family skipped: NoteEvent._compute_hopo_state is not callable as (resolution, tick, note, is_tap, is_forced, previous): {ex}")
+        ctx.intensify = True
+        return
     for res in ress:
         thr = gen.threshold(res)
         # also a note written *before* its predecessor in tick order (distance ≤ 0 ≤ threshold: "at most a triplet after" holds)
